@@ -2050,13 +2050,19 @@ insert_list:
             state --;
         else
             state ++;
-        if (state == 0 && cvar.q.th) {
-            if (cvar.q.th && (cvar.q.th->rwlock_mark & WLOCK)) {
-                cvar.notify_one();
-            } else
-                while (cvar.q.th && (cvar.q.th->rwlock_mark & RLOCK)) {
-                    cvar.notify_one();
-                }
+        if (state == 0) {
+            // Waiters leave the queue on their own when their timeout expires
+            // or they get interrupted (on any vCPU), so its head may change
+            // between two looks at it: decide on the head of each moment, and
+            // wake a writer at the head unless readers were woken before it.
+            // (A waiter woken "by mistake" re-checks the state and waits again.)
+            int woken = 0;
+            while (auto th = cvar.q.th) {
+                bool writer = th->rwlock_mark & WLOCK;
+                if (writer && woken) break;
+                if (cvar.notify_one()) woken++;
+                if (writer) break;
+            }
         }
         return 0;
     }
